@@ -4,6 +4,7 @@ import GrmVerif.Drive.Table
 import GrmVerif.Drive.C01
 import GrmVerif.Drive.C08
 import GrmVerif.Drive.C05
+import GrmVerif.Drive.C02
 import GrmVerif.Drive.C09
 import GrmVerif.Drive.C11
 import GrmVerif.Drive.C12
@@ -24,6 +25,7 @@ def dispatch (prop : String) (args : List Nat) : String :=
   | "C16" => C16.handle args
   | "C01" => C01.handle args
   | "C08" => C08.handle args
+  | "C02" => C02.handle args
   | "C05" => C05.handle args
   | "C06" => C05.handle args
   | "C07" => C05.handle args
